@@ -64,23 +64,20 @@ Ext_Step(n, s, x, ismin) ==
     IN  [s EXCEPT !.q = Push(q1, x), !.m = m2, !.p = @ \/ (ev /\ s.m = MNone)]
 Ext_Out(n, s) == s.m
 
-(* WelfordOnline: push, evict when len > N, down-date with count-1, resync on a constant window *)
-Wel_Init(n) == [q |-> <<>>, mean |-> QZero, m2 |-> QZero, count |-> 0, run |-> 0, p |-> FALSE]
-Wel_Remove(s, old) ==
-    IF s.count <= 1 THEN [s EXCEPT !.mean = QZero, !.m2 = QZero, !.count = 0]
-    ELSE LET d == QSub(old, s.mean)
-             mean1 == QNorm(QSub(s.mean, QDiv(d, QI(s.count - 1))))
-         IN  [s EXCEPT !.mean = mean1, !.m2 = QNorm(QSub(@, QMul(d, QSub(old, mean1)))), !.count = @ - 1]
+(* WelfordOnline: push; while the window fills the Welford recurrence adds the new value; once a value has to leave,
+   mean and m2 are recomputed from the values in the window by the same recurrence (no subtraction) *)
+Wel_Init(n) == [q |-> <<>>, mean |-> QZero, m2 |-> QZero, count |-> 0, p |-> FALSE]
 Wel_Add(s, x) ==
     LET d == QSub(x, s.mean)
         mean1 == QNorm(QAdd(s.mean, QDiv(d, QI(s.count + 1))))
     IN  [s EXCEPT !.mean = mean1, !.m2 = QNorm(QAdd(@, QMul(d, QSub(x, mean1)))), !.count = @ + 1]
+RECURSIVE Wel_AddAll(_, _, _)
+Wel_AddAll(s, xs, i) == IF i > Len(xs) THEN s ELSE Wel_AddAll(Wel_Add(s, xs[i]), xs, i + 1)
 Wel_Step(n, s, x) ==
-    LET run1 == IF s.q # <<>> /\ QEq(Last(s.q), x) THEN s.run + 1 ELSE 1
-        q1 == Push(s.q, x)
-        s1 == IF Len(q1) > n THEN [Wel_Remove(s, Head(q1)) EXCEPT !.q = Tail(q1)] ELSE [s EXCEPT !.q = q1]
-        s2 == [Wel_Add(s1, x) EXCEPT !.run = run1]
-    IN  IF run1 >= s2.count THEN [s2 EXCEPT !.mean = x, !.m2 = QZero] ELSE s2
+    LET q1 == Push(s.q, x) IN
+    IF Len(q1) > n
+    THEN LET q2 == Tail(q1) IN Wel_AddAll([s EXCEPT !.q = q2, !.mean = QZero, !.m2 = QZero, !.count = 0], q2, 1)
+    ELSE [Wel_Add(s, x) EXCEPT !.q = q1]
 Wel_Var(s) == IF s.count > 1 THEN QDiv(s.m2, QI(s.count - 1)) ELSE QZero
 Wel_Out(n, s) == IF s.count < n - 1 THEN MNone
                  ELSE IF QSign(Wel_Var(s)) <= 0 THEN MQ(QZero) ELSE MSq(Wel_Var(s))
@@ -317,12 +314,13 @@ Flex_Step(n, s, x, reflex) ==
 (* Alma: the exponents of the positional Gaussian weights are fixed in Init; the weighted mean is recomputed over the
    window.  Weights are taken relative to the largest one among the positions in use (the normalisation cancels the
    factor), so that a narrow kernel underflows the 20 fixed-point decimals no more than it underflows an f64. *)
-Alma_Init(n, sigma, offset) == [es |-> [k \in 1..n |-> AlmaExpo(n, k, sigma, offset)], q |-> <<>>, out |-> MNone, p |-> FALSE]
+Alma_Init(n, sigma, offset) ==
+    [es |-> [k \in 1..n |-> AlmaExpo(n, k, sigma, offset)], wfull |-> AlmaWeights(n, sigma, offset), q |-> <<>>, out |-> MNone, p |-> FALSE]
 Alma_Step(n, s, x) ==
     LET q1 == Win_Push(n, s, x) len == Len(q1)
         es == SubSeq(s.es, 1, len)
         e0 == QMinSeq(es)
-        ws == [k \in 1..len |-> FExp(FFromQ(QSub(e0, es[k])))]
+        ws == IF len = n THEN s.wfull ELSE [k \in 1..len |-> FExp(FFromQ(QSub(e0, es[k])))]
     IN  [s EXCEPT !.q = q1, !.out = IF AllEqual(q1) THEN MQ(q1[1]) ELSE MF(FDiv(FDotFrom(ws, q1, 1), FSumFrom(ws, 1)))]
 
 -----------------------------------------------------------------------------
